@@ -50,6 +50,11 @@ fn families() -> Vec<Family> {
              exp_start: Some((json!({"regex": "^,$"}), "neighbor")), exp_end: Some((json!({"regex": "^,$"}), "neighbor")) },
     Family { name: "exp-end-far", rule: json!({"rule": {"kind": "number", "regex": "^7$"}, "fix": {"template": "9", "expandEnd": {"kind": "number", "stopBy": "end"}}}),
              exp_start: None, exp_end: Some((json!({"kind": "number"}), "end")) },
+    // expansions that reach a sibling on another line
+    Family { name: "exp-start-comment-line", rule: json!({"rule": {"kind": "expression_statement", "regex": "^foo"}, "fix": {"template": "", "expandStart": {"kind": "comment"}}}),
+             exp_start: Some((json!({"kind": "comment"}), "neighbor")), exp_end: None },
+    Family { name: "exp-end-comment-far", rule: json!({"rule": {"kind": "expression_statement", "regex": "^foo"}, "fix": {"template": "gone();", "expandEnd": {"kind": "comment", "stopBy": "end"}}}),
+             exp_start: None, exp_end: Some((json!({"kind": "comment"}), "end")) },
     Family { name: "exp-trim", rule: json!({"rule": {"pattern": "let $X = $Y"}, "fix": {"template": "var $X = $Y", "expandEnd": {"kind": "comment"}}}),
              exp_start: None, exp_end: Some((json!({"kind": "comment"}), "neighbor")) },
   ]
@@ -70,6 +75,8 @@ fn make_text(ls: &LangSpec, rng: &mut Rng) -> String {
     "let b = foo(3); // note".to_string(),
     "let c = 7".to_string(),
     format!("other(0){s}"),
+    format!("// lead é\nfoo(8){s}"),
+    format!("/* block\n   comment */\nfoo(9){s}\n// tail"),
     format!("z = \"😀\" + foo(4){s}"),
     format!("if (t) {{\n  foo(\n    5,\n    6\n  ){s}\n}}"),
   ];
